@@ -26,6 +26,7 @@ class Store:
         self.mutlog = []       # ('put'|'del', name, data|None, client_id)
         self.initial = dict(self.objs)
         self.calls = []        # (client_id, op, name, result-summary)
+        self.events = []       # ('exists'|'put'|'del', name, data|result, client_id) in the order the store applied them
 
     def state_at(self, k):
         objs = dict(self.initial)
@@ -69,19 +70,29 @@ class _Base:
 
     def _put(self, name, data):
         with self.store.lock:
-            if self.dead:
+            if self.dead or getattr(self, 'kill_on_first_mutation', False):
+                self.dead = True
                 raise Killed()
             self.store.objs[name] = bytes(data)
             self.store.mutlog.append(('put', name, bytes(data), self.client_id))
+            self.store.events.append(('put', name, bytes(data), self.client_id))
+        cb = getattr(self, 'after_mutation', None)
+        if cb is not None:
+            cb(self)
 
     def _del(self, name):
         with self.store.lock:
-            if self.dead:
+            if self.dead or getattr(self, 'kill_on_first_mutation', False):
+                self.dead = True
                 raise Killed()
             existed = name in self.store.objs
             self.store.objs.pop(name, None)
             self.store.mutlog.append(('del', name, None, self.client_id))
-            return existed
+            self.store.events.append(('del', name, existed, self.client_id))
+        cb = getattr(self, 'after_mutation', None)
+        if cb is not None:
+            cb(self)
+        return existed
 
     def _list(self, prefix):
         with self.store.lock:
@@ -106,6 +117,7 @@ class MemBackend(_Base):
             self._g('exists', name)
             with self.store.lock:
                 r = name in self.store.objs
+                self.store.events.append(('exists', name, r, self.client_id))
             self._record('exists', name, r)
             return r
         finally:
@@ -196,9 +208,10 @@ class AsyncMemBackend(_Base):
 
     async def _g(self, op, name):
         if self.gate is not None:
-            await self.gate(self, op, name)
-        else:
-            await asyncio.sleep(0)
+            r = self.gate(self, op, name)
+            if hasattr(r, '__await__'):
+                await r
+        await asyncio.sleep(0)
         if self.dead:
             raise Killed()
 
@@ -206,7 +219,9 @@ class AsyncMemBackend(_Base):
         self._enter('exists')
         try:
             await self._g('exists', name)
-            r = name in self.store.objs
+            with self.store.lock:
+                r = name in self.store.objs
+                self.store.events.append(('exists', name, r, self.client_id))
             self._record('exists', name, r)
             return r
         finally:
@@ -269,7 +284,9 @@ class AsyncMemBackend(_Base):
         if self.dead:
             raise Killed()
         if self.gate is not None:
-            await self.gate(self, 'list_files', prefix)
+            r = self.gate(self, 'list_files', prefix)
+            if hasattr(r, '__await__'):
+                await r
         for n in self._list(prefix):
             yield n
 
